@@ -10,6 +10,13 @@
     for each: unsigned int(16) sequenceParameterSetLength; bit(8*len) sequenceParameterSetNALUnit;
     unsigned int(8) numOfPictureParameterSets;
     for each: unsigned int(16) pictureParameterSetLength; bit(8*len) pictureParameterSetNALUnit;
+    if (profile_idc == 100 || profile_idc == 110 || profile_idc == 122 || profile_idc == 144) {   // 2012 edition
+      bit(6) reserved = '111111'b; unsigned int(2) chroma_format;
+      bit(5) reserved = '11111'b;  unsigned int(3) bit_depth_luma_minus8;
+      bit(5) reserved = '11111'b;  unsigned int(3) bit_depth_chroma_minus8;
+      unsigned int(8) numOfSequenceParameterSetExt;
+      for each: unsigned int(16) sequenceParameterSetExtLength; bit(8*len) sequenceParameterSetExtNALUnit;
+    }
 
   NAL units are opaque byte strings here. Arithmetic (not bitwise) composition on purpose.
 -/
@@ -21,11 +28,35 @@ def paramSets : List Bytes → Bytes
   | [] => []
   | u :: us => be 2 u.length ++ u ++ paramSets us
 
-def record (profile compat level : UInt8) (lengthSizeMinusOne : Nat) (sps pps : List Bytes) : Bytes :=
+/-- The trailing block the 2012 edition prescribes for the High profiles. -/
+structure HighExt where
+  chromaFormat : Nat          -- 2 bits
+  bitDepthLumaMinus8 : Nat    -- 3 bits
+  bitDepthChromaMinus8 : Nat  -- 3 bits
+  spsExt : List Bytes
+  deriving Repr
+
+/-- `profile_idc ∈ {100, 110, 122, 144}`. -/
+def needsExt (profile : UInt8) : Bool := profile == 100 || profile == 110 || profile == 122 || profile == 144
+
+def extBytes (e : HighExt) : Bytes :=
+  [UInt8.ofNat (252 + e.chromaFormat), UInt8.ofNat (248 + e.bitDepthLumaMinus8),
+   UInt8.ofNat (248 + e.bitDepthChromaMinus8), UInt8.ofNat e.spsExt.length] ++ paramSets e.spsExt
+
+/-- The record without the High-profile block (all there is for the other profiles). -/
+def recordBase (profile compat level : UInt8) (lengthSizeMinusOne : Nat) (sps pps : List Bytes) : Bytes :=
   [1, profile, compat, level,
    UInt8.ofNat (252 + lengthSizeMinusOne),      -- 111111xx
    UInt8.ofNat (224 + sps.length)]              -- 111xxxxx
   ++ paramSets sps ++ [UInt8.ofNat pps.length] ++ paramSets pps
+
+/-- A writer is conformant when it appends the block exactly for the High profiles. -/
+def ExtConformant (profile : UInt8) (ext : Option HighExt) : Prop := ext.isSome = needsExt profile
+
+def record (profile compat level : UInt8) (lengthSizeMinusOne : Nat) (sps pps : List Bytes)
+    (ext : Option HighExt) : Bytes :=
+  recordBase profile compat level lengthSizeMinusOne sps pps ++
+    (match ext with | some e => extBytes e | none => [])
 
 /-- NAL unit per ISO/IEC 14496-10 §7.3.1: forbidden_zero_bit(1)=0, nal_ref_idc(2), nal_unit_type(5), payload. -/
 def nalUnit (refIdc ty : Nat) (payload : Bytes) : Bytes :=
